@@ -25,6 +25,24 @@ CHECKS = {
              'escaping checked only on the concrete string classes of the '
              'harness; TLC bounds (depth/width/events) stated in evidence.',
         design='5/C07'),
+    'C09': dict(
+        engine='Resolver',
+        technique='live resolver regexes translated to DFAs and read by a '
+                  'TLA+ product-automaton spec with hand-written YAML 1.2 '
+                  'reference automata; TLC explores the complete product '
+                  '(strings of every length); every state replayed end to end',
+        text='TLC explores the complete (finite) product of the live loader '
+             'table automata and the reference YAML 1.2 float/bool automata, '
+             'so LoaderTag = RefTag is decided for all strings of all '
+             'lengths, and additionally for every word up to a length bound '
+             'over the number/boolean alphabet. Each explored state is '
+             'concretised and executed through Loader.resolve and load(), '
+             'comparing tag, Python type and float value.',
+        note='Trusted: re._parser, the regex->DFA translator (cross-checked '
+             'against pattern.match on every run), PyYAML Resolver.resolve '
+             'semantics as transcribed; reference for non-float/bool tags is '
+             'PyYAML\'s pristine table.',
+        design='5/C09'),
 }
 
 NOT_YET = 'check not built yet (work in progress; see DESIGN.md section 5)'
